@@ -226,6 +226,8 @@ func (x *secExec) Exec(a []string) string {
 		return x.locked()
 	case a[0] == "kkeys" && len(a) == 1:
 		return x.keys()
+	case a[0] == "klayout" && len(a) == 1:
+		return x.layout()
 	case a[0] == "kscan" && len(a) == 1:
 		return x.scan()
 	case a[0] == "txlock" && len(a) == 4:
